@@ -216,6 +216,32 @@ def correspond(ctx):
                           % (crv, enc, len(apu), len(apv), enc, encbits[enc]), {"case": c_[:3000], "produced_by": r_[:1500], "implementation": str(got)[:100], "expected": wantk})
     dist["ECDH-ES direct: derived content key compared with python Concat KDF (apu / apv of 0..300 octets)"] = len(unw)
 
+    # ---- 1d. compressed plaintext beyond the 256 KiB bound that applies to the COMPRESSED size: 300 000 / 600 000 compressible
+    #           octets (a few KiB once deflated) must still round trip, one-shot and streaming (implementation only)
+    big_req, big_meta = [], []
+    for wrap_, enc_ in (("dir", "A128GCM"), ("A128KW", "A128CBC-HS256")) + ((("A256KW", "A256GCM"),) if not quick else ()):
+        for n_ in (300000,) if quick else (262144, 262145, 300000, 600000):
+            pt_ = (b"compressible plaintext %d " % n_) * (n_ // 20)
+            pt_ = pt_[:n_]
+            k_ = G.wrap_key(rnd, keys, wrap_, enc_)
+            big_req.append("jweenc\t%s\t-\t%s\t%s" % (J(G.jwe_template(wrap_, enc_, True, None)), J(k_), pt_.hex()))
+            big_meta.append((wrap_, enc_, k_, pt_))
+    bdec, bdm = [], []
+    for r_, o, (wrap_, enc_, k_, pt_) in zip(big_req, G.harness(bdir, big_req), big_meta):
+        if o == "ERR" or o.startswith("CRASH"):
+            rep.violation("enc-failed:%s:%s:zip-large" % (wrap_, enc_), "jose_jwe_enc with zip failed for %d octets: %s" % (len(pt_), o[:80]), {"case": r_[:300]})
+            continue
+        ctl = len(json.loads(o)["ciphertext"])
+        bdec.append("jwedec\t%s\t-\t%s" % (o, J(k_)))
+        bdm.append((wrap_, enc_, pt_, "one-shot"))
+        bdec.append("jwedecio\t%s\t-\t%s\t%s" % (o, J(k_), "%d,%d" % (ctl // 2, ctl - ctl // 2)))
+        bdm.append((wrap_, enc_, pt_, "streaming"))
+    for c_, o, (wrap_, enc_, pt_, how) in zip(bdec, G.harness(bdir, bdec), bdm):
+        good = (o == "OK " + pt_.hex()) if how == "one-shot" else (o.split(" ")[1:] == ["T", pt_.hex()])
+        if not good:
+            rep.violation("roundtrip-failed:zip-large:" + how, "%s/%s with zip: %d compressible octets do not come back (%s decryption: %s)" % (wrap_, enc_, len(pt_), how, o[:40]), {"case": c_[:400]})
+    dist["zip round trips of 300 000+ compressible octets"] = len(bdec)
+
     # ---- 2. bit-identity: re-encrypt on the model with jose's CEK and IV (no zip), compare ciphertext and tag
     menc_cases = []
     for tok, (wrap, enc, zip_, aad, key, pt) in toks:
